@@ -75,6 +75,7 @@ func init() {
 	add(&Property{
 		ID: "C04", Title: "routine: at most one instance of the managed function executes at a time",
 		Sels: []Sel{
+			{Run: "Groutine", Rules: []string{"R12"}, Contains: []string{"calls-routine-synchronously"}},
 			{Run: "Gstale", Scope: []string{"routine"}},
 			{Run: "Gcontra", Scope: []string{"routine"}},
 			{Run: "R3", Scope: []string{"routine"}, Prefixes: []string{"routine."}},
@@ -94,7 +95,7 @@ func init() {
 		Sels: []Sel{
 			{Run: "Gstale", Scope: []string{"routine"}},
 			{Run: "Gcontra", Scope: []string{"routine"}},
-			{Run: "Groutine", Rules: []string{"R4", "R12"}, Contains: []string{"cancel", "derived-context", "current-context", "status-reset", "go-execute", "store-state-before-rebuild", "stored-state-reaches-routine", "closure-captures-copy", "status-writes", "hands-routine", "stores-context"}},
+			{Run: "Groutine", Rules: []string{"R4", "R12"}, Contains: []string{"cancel", "derived-context", "current-context", "status-reset", "go-execute", "store-state-before-rebuild", "stored-state-reaches-routine", "closure-captures-copy", "status-writes", "hands-routine", "stores-context", "calls-routine-synchronously", "forgets-only-its-own"}},
 			{Run: "Groutine", Rules: []string{"R5b"}},
 			{Run: "R1", Scope: []string{"routine"}, Rules: []string{"R1a"}, Prefixes: []string{"routine."}},
 			{Run: "R2", Scope: []string{"routine", "broadcast"}, Rules: []string{"R2d"}, Prefixes: []string{"routine."}},
@@ -186,7 +187,7 @@ func init() {
 			{Run: "R2", Scope: []string{"promise", "broadcast"}, Rules: []string{"R2a", "R2b", "R2c"}, Prefixes: []string{"promise.(*PromiseContainer)"}},
 			{Run: "R17", Scope: []string{"refcount"}, Rules: []string{"R17", "R2f"}, Prefixes: []string{"refcount.(*RefCount).Access"}},
 			{Run: "R1", Scope: []string{"refcount", "promise", "broadcast", "ccontainer"}, Rules: []string{"R1b", "R1c", "R1d"}, Prefixes: []string{"refcount."}},
-			{Run: "R1", Scope: []string{"refcount"}, Rules: []string{"R1a", "R11a", "R11c"}},
+			{Run: "R1", Scope: []string{"refcount"}, Rules: []string{"R1a", "R11a", "R11c", "R11e"}},
 		},
 		Floors:      map[string]int{"R12": 9, "R2a": 1, "R2c": 1, "R1b": 7, "R1c": 1},
 		Explanation: "Access hands its callback the value sampled together with its subscription, cancels the callback context from a watcher when the wait channel fires (cbCancel deferred), and returns the callback's result only when a generation comparison made under the lock after the callback returned found the generation unchanged; Wait/Resolve/ResolveWithReleased release the reference only on the error path; released() re-resolves exactly when the generation is unchanged, and every restart of the resolution first drops the previous value and bumps the generation (also with no reference left: a kept value must not outlive its invalidation); the locals shared with reference callbacks are protected by the callback-field contract (Ref.cb runs under mtx). The static form of concurrent use: the fields the mechanism uses are accessed only under its lock, and every lock acquired is released on every path (R1a, R11)." + structural,
@@ -266,7 +267,7 @@ func init() {
 			{Run: "Gcontra", Scope: []string{"ccontainer"}},
 			{Run: "Gccontainer", Rules: []string{"R12"}},
 			{Run: "R2", Scope: []string{"ccontainer", "broadcast"}, Rules: []string{"R2a", "R2b", "R2c", "R2d"}, Prefixes: []string{"ccontainer."}},
-			{Run: "R17", Scope: []string{"ccontainer"}, Rules: []string{"R17", "R2f"}},
+			{Run: "R17", Scope: []string{"ccontainer", "broadcast"}, Rules: []string{"R17", "R2f"}, Prefixes: []string{"ccontainer."}},
 			{Run: "R1", Scope: []string{"ccontainer"}, Rules: []string{"R1a"}},
 		},
 		Floors:      map[string]int{"R12": 5, "R2a": 1, "R2b": 1, "R2c": 1, "R17": 3, "R1a": 1},
